@@ -32,7 +32,8 @@ BUILDS = ("pure", "compiled")
 RULE = ("every @async_generator body = sequence over {yield Value, await blocking batch item, await ConstFuture, await "
         "@asynq task} up to length 5 (quick) / 7 (thorough), plus nested bodies (every inner body up to length 3/4 "
         "inside 9 outer templates, and 2-level nesting); consumers: list_of_generator, take_first(gen, n)+list for every "
-        "n in 0..len+1 under two calling conventions, and every consumer history of length <= 3 (quick) / 4 (thorough; 3 for bodies of length 7) "
+        "n in 0..len+1 under two calling conventions, and every consumer history of length <= 3 (quick) / 4 (thorough; 3 "
+        "for bodies of length 7) "
         "over {take_first 0/1/2, list_of_generator, next+compute, next-without-computing+next, compute-the-leftover} "
         "on one generator object; compared step by step with a list-of-Values-with-cursor reference, with a step "
         "counter inside the body for 'consumed no more than needed'. non-trivial = cases whose body interleaves at "
@@ -541,7 +542,8 @@ def replay(case, env):
 def finish(acc, tier):
     b = BOUNDS[tier]
     return {"bounds": {"body length": b["L"], "step alphabet": list(ALPHA),
-                       "history length": "%d for bodies up to length %d, %d for longer bodies" % (b["H"], b["Lhist"], b["H2"]),
+                       "history length": (str(b["H"]) if b["Lhist"] >= b["L"] else
+                                          "%d for bodies up to length %d, %d for longer bodies" % (b["H"], b["Lhist"], b["H2"])),
                        "history operations": OPS, "take_first n (single family)": "0..len+1",
                        "nested inner length": b["Ln"], "nested history length": b["Hn"],
                        "bodies (plain)": sum(4 ** L for L in range(b["L"] + 1)),
